@@ -196,12 +196,85 @@ func truthOf(pcaps map[string]*pcapDef, processed []string, newOnes map[string]b
 // separated by blanks, each optionally negated with '-':
 //
 //	sport:N cport:N cbytes:N: sbytes:N: cdata:lit sdata:lit id:a,b,c tag:x service:x mark:x generated:x
+// A definition may also carry ONE sub-query named s:  atoms written `@s:<atom>` (optionally negated)
+// constrain another stream, `cbytes:@s:cbytes@` / `sbytes:@s:sbytes@` / `cport:@s:cport@` relate this
+// stream to it: the definition holds for a stream iff its own atoms hold and SOME existing stream (possibly
+// the same one) satisfies the sub-query atoms and the relations.  h.world = all existing streams.
 func (h *harness) evalDef(def string, id uint64, ft *flowTruth, depth int) (bool, bool) {
 	if depth > 20 {
 		return false, false
 	}
+	fields := strings.Fields(def)
+	if !strings.Contains(def, "@s:") {
+		return h.evalAtoms(fields, id, ft, depth)
+	}
+	if h.world == nil {
+		return false, false
+	}
+	mainAtoms, subAtoms, rels := []string{}, []string{}, []string{}
+	for _, a := range fields {
+		switch {
+		case strings.HasPrefix(a, "@s:"):
+			subAtoms = append(subAtoms, strings.TrimPrefix(a, "@s:"))
+		case strings.HasPrefix(a, "-@s:"):
+			subAtoms = append(subAtoms, "-"+strings.TrimPrefix(a, "-@s:"))
+		case strings.Contains(a, ":@s:"):
+			rels = append(rels, a)
+		default:
+			mainAtoms = append(mainAtoms, a)
+		}
+	}
+	mainRes, ok := h.evalAtoms(mainAtoms, id, ft, depth)
+	if !ok {
+		return false, false
+	}
+	val := func(f *flowTruth, k string) (int, bool) {
+		switch k {
+		case "cbytes":
+			return f.cbytes, true
+		case "sbytes":
+			return f.sbytes, true
+		case "cport":
+			return f.cport, true
+		case "sport":
+			return f.sport, true
+		}
+		return 0, false
+	}
+	exists := false
+	for id2, ft2 := range h.world {
+		r, ok := h.evalAtoms(subAtoms, id2, ft2, depth)
+		if !ok {
+			return false, false
+		}
+		if !r {
+			continue
+		}
+		all := true
+		for _, rel := range rels {
+			k, v, _ := strings.Cut(rel, ":")
+			k2 := strings.TrimSuffix(strings.TrimPrefix(v, "@s:"), "@")
+			a, ok1 := val(ft, k)
+			b, ok2 := val(ft2, k2)
+			if !ok1 || !ok2 {
+				return false, false
+			}
+			all = all && a == b
+		}
+		if all {
+			exists = true
+			break
+		}
+	}
+	return mainRes && exists, true
+}
+
+func (h *harness) evalAtoms(atoms []string, id uint64, ft *flowTruth, depth int) (bool, bool) {
+	if depth > 20 {
+		return false, false
+	}
 	res := true
-	for _, atom := range strings.Fields(def) {
+	for _, atom := range atoms {
 		neg := strings.HasPrefix(atom, "-")
 		a := strings.TrimPrefix(atom, "-")
 		k, v, ok := strings.Cut(a, ":")
@@ -344,6 +417,7 @@ type harness struct {
 	jobHolds map[string][]string // index files each running job holds
 	pendingTruth map[int]*flowTruth
 	importBatch  []string
+	world        map[uint64]*flowTruth // every existing stream (for definitions with a sub-query)
 }
 
 func (h *harness) complain(prop, format string, a ...interface{}) {
@@ -596,6 +670,7 @@ func (h *harness) checkOracles(st manager.VerifState) {
 		}
 	}
 	// --- C06 (service state): decided (id < next, not uncertain) => matches == evaluation of the definition
+	h.world = byID
 	for _, t := range st.Tags {
 		unc := map[uint]bool{}
 		for _, u := range t.Uncertain {
@@ -1093,6 +1168,10 @@ func (h *harness) step(line string) (event, error) {
 			if off := mergeOffset(st); off >= 0 {
 				h.jobHolds[k] = append([]string(nil), st.Indexes[off:]...)
 			}
+			// contract `MergeOK` of the termination theorem (Pk/Props/C09Settles.lean): a merge runs on >= 2 files
+			if len(h.jobHolds[k]) < 2 {
+				h.complain("C09", "merge job started over %d index file(s): a merge that cannot reduce the number of files may repeat for ever", len(h.jobHolds[k]))
+			}
 		case "import":
 			started[k] = true
 			h.importBatch = append([]string(nil), st.ImportJobs...)
@@ -1316,6 +1395,7 @@ var words = []string{"foo", "bar", "GET", "x"}
 type genTag struct {
 	data bool // definition looks at payload or byte counts
 	refs bool
+	sub  bool // has a sub-query
 }
 
 // genWorld is the generator's rough picture of the service (it gets no feedback): which tags
@@ -1346,6 +1426,41 @@ func (g *genWorld) genDef(self string, wild bool) (string, *genTag) {
 	gt := &genTag{}
 	n := 1 + r.Intn(2)
 	simple := r.Chance(2, 5) // ports only: such a tag accepts a converter
+	if !simple && !wild && r.Chance(1, 5) {
+		// a definition with a sub-query: "some stream that has <tag/port> is related to this one"
+		cands := []string{}
+		for _, t := range tagNames[:max(0, g.idx(self))] {
+			if g.tags[t] != nil && !g.tags[t].sub {
+				cands = append(cands, t)
+			}
+		}
+		sub := fmt.Sprintf("@s:sport:%d", 2000+r.Intn(4))
+		if len(cands) != 0 && r.Chance(3, 4) {
+			k, v, _ := strings.Cut(lib.Pick(r, cands), "/")
+			sub = "@s:" + k + ":" + v
+			gt.refs = true
+		}
+		if r.Chance(1, 4) {
+			sub = "-" + sub
+		}
+		atoms = append(atoms, sub)
+		// always related to the stream itself: a sub-query nothing refers to does not constrain the result
+		switch r.Intn(3) {
+		case 0:
+			atoms = append(atoms, "cbytes:@s:cbytes@")
+			gt.data = true
+		case 1:
+			atoms = append(atoms, "sbytes:@s:sbytes@")
+			gt.data = true
+		case 2:
+			atoms = append(atoms, "cport:@s:cport@")
+		}
+		if r.Chance(1, 3) {
+			atoms = append(atoms, fmt.Sprintf("sport:%d", 2000+r.Intn(4)))
+		}
+		gt.sub = true
+		return strings.Join(atoms, " "), gt
+	}
 	for i := 0; i < n; i++ {
 		var a string
 		k := r.Intn(10)
